@@ -124,11 +124,71 @@ class SymLenFW:
 
 
 class Response:
+    """the bytes a control-IN transfer returned: a sequence of byte values (int | SymInt)"""
+
     def __init__(self, fields):
-        self.fields = fields
+        self.fields = tuple(fields)
 
     def __len__(self):
-        return 6
+        return len(self.fields)
+
+    def __iter__(self):
+        return iter(self.fields)
+
+    def __getitem__(self, i):
+        if isinstance(i, slice):
+            return Response(self.fields[i])
+        return self.fields[i]
+
+    def tobytes(self):
+        return self
+
+    def unpack(self, fmt):
+        """struct.unpack of these bytes for a standard-size format (no alignment)"""
+        import re as _re
+        m = _re.fullmatch(r'([<>=!]?)((?:\d*[xbBhHiIlLqQ])+)', fmt)
+        if not m or (m.group(1) == '' and _re.search(r'[hHiIlLqQ]', fmt)):
+            raise core.EngineLimit('struct.unpack format %r on a device response' % fmt)
+        little = m.group(1) in ('<', '') or (m.group(1) == '=' and __import__('sys').byteorder == 'little')
+        sizes = dict(x=1, b=1, B=1, h=2, H=2, i=4, I=4, l=4, L=4, q=8, Q=8)
+        out, pos = [], 0
+        for cnt, ch in _re.findall(r'(\d*)([xbBhHiIlLqQ])', m.group(2)):
+            for _ in range(int(cnt) if cnt else 1):
+                n = sizes[ch]
+                if pos + n > len(self.fields):
+                    raise __import__('struct').error('unpack requires a buffer of %d bytes' % (pos + n))
+                part = self.fields[pos:pos + n]
+                pos += n
+                if ch == 'x':
+                    continue
+                v = combine_bytes(part, little)
+                if ch in 'bhilq':
+                    v = core.ite(v >= (1 << (8 * n - 1)), v - (1 << (8 * n)), v) if isinstance(v, SymInt) else (v - (1 << (8 * n)) if v >= (1 << (8 * n - 1)) else v)
+                out.append(v)
+        if pos != len(self.fields):
+            raise __import__('struct').error('unpack requires a buffer of %d bytes' % pos)
+        return tuple(out)
+
+
+def combine_bytes(part, little):
+    part = list(part) if little else list(part)[::-1]
+    v = 0
+    for k, b in enumerate(part):
+        v = v + (b << (8 * k)) if k else b
+    return v
+
+
+class IntType(int):
+    """stands in for the name ``int`` inside dfu.py: int.from_bytes accepts a device response"""
+
+    @classmethod
+    def from_bytes(cls, data, byteorder='big', *, signed=False):
+        if isinstance(data, Response):
+            v = combine_bytes(data.fields, byteorder == 'little')
+            if signed:
+                raise core.EngineLimit('int.from_bytes(signed=True) on a device response')
+            return v
+        return int.from_bytes(data, byteorder, signed=signed)
 
 
 class Device:
@@ -184,10 +244,13 @@ class Device:
             if ok:
                 r, _ = self.p.sat(Not(arg.num == want))      # for every poll timeout value
                 ok = r == 'unsat'
+                if r == 'sat':
+                    # the rest of this path is about a delay that is not waited for: its witness shows one
+                    self.p.assume(Not(arg.num == want))
         else:
             ok = (arg == want / 1000)
         if not ok:
-            self.monitors.append('poll delay not waited: slept %r, device asked for %r ms' % (arg, want))
+            self.monitors.append('poll delay not waited: the sleep differs from the delay the device asked for')
 
     def ctrl_transfer(self, bmRequestType, bRequest, wValue=0, wIndex=0, data_or_wLength=None, timeout=None):
         p = self.p
@@ -326,16 +389,21 @@ def load_dfu(dev_holder, prints, sleeps, fw_holder, argv):
         @staticmethod
         def unpack(fmt, data):
             if isinstance(data, Response):
-                assert fmt == '<BBBBBB'
-                return data.fields
+                return data.unpack(fmt)
             return __import__('struct').unpack(fmt, data)
 
     class _File:
         def __init__(self, fw):
             self.fw = fw
 
-        def read(self):
-            return self.fw
+        def read(self, n=-1):
+            pos = getattr(self, 'pos', 0)
+            rest = self.fw[pos:] if pos else self.fw
+            if n is None or n < 0:
+                self.pos = len(self.fw)
+                return rest
+            self.pos = min(len(self.fw), pos + n)
+            return rest[:n]
 
         def __enter__(self):
             return self
@@ -360,6 +428,19 @@ def load_dfu(dev_holder, prints, sleeps, fw_holder, argv):
     mod.open = _open
     mod.len = _len
     mod.print = _print
+    mod.int = IntType
+
+    def _bytes(*a, **k):
+        if len(a) == 1 and isinstance(a[0], (Response, FW)):
+            return a[0]
+        return bytes(*a, **k)
+
+    def _bytearray(*a, **k):
+        if len(a) == 1 and isinstance(a[0], (Response, FW)):
+            return a[0]
+        return bytearray(*a, **k)
+    mod.bytes = _bytes
+    mod.bytearray = _bytearray
     mod.STATUS_DESCRIPTION = SymKeyDict(mod.STATUS_DESCRIPTION)
     mod.STATE_DESCRIPTION = SymKeyDict(mod.STATE_DESCRIPTION)
     return mod
